@@ -67,7 +67,7 @@ def mechanism(draw, closed_loops=True, point_masses=True, conservative=False, ma
         spec["rate"] = draw(gen.f(-2, 2))
         spec["axis"] = draw(gen.unit_vec3())
         return spec
-    nb = draw(st.integers(1, max_bodies if kind == "chain" else 2))
+    nb = draw(st.integers(1, max_bodies)) if kind == "chain" else 2
     bodies, joints = [], []
     for i in range(nb):
         b = draw(build.rigid_body(unit=True))
@@ -85,10 +85,25 @@ def mechanism(draw, closed_loops=True, point_masses=True, conservative=False, ma
                        "psi_J": draw(gen.rotvec(min_exp=-2, near_max=False)), "angle0": 0.0})
     spec.update(bodies=bodies, joints=joints, rate=draw(gen.f(-2, 2)))
     if kind == "loop":
+        # mobility 12 - 5 (or 3) - 3 - 3 >= 1: no redundant constraints (a redundant loop makes every solver's
+        # iteration matrix singular, which is a modelling error, not a case of any property)
+        if joints[0]["type"] not in ("Revolute", "Spherical"):
+            joints[0]["type"] = "Revolute"
+        joints[1]["type"] = "Spherical"
         # close the chain with a spherical joint between the last body and the origin (four-bar like); at rest
         last = bodies[-1]
-        spec["closing"] = {"type": "Spherical", "r_OJ0": [last["r"][0] + 0.6, draw(gen.f(-0.2, 0.2)), draw(gen.f(-0.2, 0.2))]}
+        # joints off the common line: a collinear layout is a singular (dead-point) configuration
+        joints[1]["r_OJ0"][1] = 0.4 + draw(gen.f(0.0, 0.3))
+        spec["closing"] = {"type": "Spherical", "r_OJ0": [last["r"][0] + 0.6, -0.5 - draw(gen.f(0.0, 0.3)), 0.3 + draw(gen.f(0.0, 0.3))]}
         spec["rate"] = 0.0
+    if kind == "chain" and not conservative and draw(st.integers(0, 3)) == 0:
+        # rheonomic constraint: the chain hangs from a translating frame
+        m = draw(build.motion(moving=True, rotating=False))
+        m["c0"] = [0.0, 0.0, 0.0]
+        m["psi0"] = [0.0, 0.0, 0.0]
+        for k in ("c1", "c2", "a"):
+            m[k] = (0.5 * np.array(m[k])).tolist()
+        spec["base_motion"] = m
     if draw(st.booleans()):
         spec["spring"] = {"k": draw(gen.f(5, 60)), "l_ref": draw(gen.f(0.5, 2.0)), "B2": draw(gen.vec3(-2, -0.7)),
                           "d": 0.0 if conservative else draw(st.sampled_from([0.0, 0.0, 0.5]))}
@@ -125,9 +140,16 @@ def build_mechanism(spec, t0=0.0, state=None, consistent=True, opts=None):
         j0 = spec["joints"][0]
         _rigid_motion_velocity(bs, j0, gen._exp(np.array(j0["psi_J"], dtype=float)), np.array(j0["r_OJ0"], dtype=float),
                                spec["rate"])
+        prev = system.origin
+        if "base_motion" in spec:
+            f = build.motion_functions(spec["base_motion"])
+            shift = f["r"](t0) - f["r"](0.0)
+            for b in bs:
+                b["v"] = (np.array(b["v"]) + f["r_t"](t0)).tolist()
+            prev = build.make_frame(spec["base_motion"], name="base")
+            system.add(prev)
         bodies = [build.make_body(b, name=f"body{i}") for i, b in enumerate(bs)]
         system.add(*bodies)
-        prev = system.origin
         for i, js in enumerate(spec["joints"]):
             j = sysbuild.make_joint(js, prev, bodies[i])
             j.name = f"joint{i}"
